@@ -120,6 +120,26 @@ func (db *DB) ReviveObject(addr oid.Address) (res ReviveStatus, err error) {
 			}
 			res.setStatusGraveyard(tombAddress.EncodeToString())
 			res.tombstoneAddr = tombAddress
+
+			// the object may have been removed more than once: drop the other tombstones
+			// too, otherwise it stays in the graveyard while being accounted as revived
+			for prev := tombOID; ; prev = tombOID {
+				_, tombOID = associatedWithTypedObject(0, metaCursor, addr.Object(), object.TypeTombstone)
+				if tombOID.IsZero() {
+					break
+				}
+				if tombOID == prev {
+					return fmt.Errorf("tombstone %s can not be removed", tombOID)
+				}
+				diff, err = db.delete(metaCursor, cnr, tombOID)
+				if err != nil {
+					return err
+				}
+				err = applyDiff(metaCursor.Bucket(), diff)
+				if err != nil {
+					return fmt.Errorf("failed to update counters: %w", err)
+				}
+			}
 		}
 		if status == statusGCMarked || status == statusTombstoned {
 			err = updateCounter(metaBucket, gcCounter, -1)
